@@ -275,6 +275,65 @@ Definition signed32 (x : Z) : Z := if x <? 2147483648 then x else x - 4294967296
 Definition prefixed (prefix : list Z) (tbl : list (Z * list Z)) (v : Z) : option (list Z) :=
   match name_of tbl v with Some n => Some (prefix ++ n) | None => None end.
 
+(* {} of an unsigned integer below 10^20 (every u64) *)
+Fixpoint dec_fuel (fuel : nat) (x : Z) (acc : list Z) : list Z :=
+  match fuel with
+  | O => acc
+  | S f => let acc' := (48 + x mod 10) :: acc in if x <? 10 then acc' else dec_fuel f (x / 10) acc'
+  end.
+Definition dec (x : Z) : list Z := dec_fuel 20 x [].
+Definition hex018 (x : Z) : list Z := 48 :: 120 :: hexn 16 x.          (* {:#018x} of a 64-bit value *)
+Definition fld (x sh mask : Z) : Z := Z.land (Z.shiftr x sh) mask.
+Definition raw_pair (code subcode : Z) : list Z := hex018 code ++ SEP ++ hex018 subcode.
+
+(* write_exc_resource: "EXC_RESOURCE / <type> / " then the flavor's rendering or the two raw words *)
+Definition exc_resource_string (ty code subcode : Z) : option (list Z) :=
+  match name_of NAMES_ExceptionCodeMacResourceType ty with
+  | None => None
+  | Some tn =>
+      let flavor := fld code 58 7 in
+      let withfl (tbl : list (Z * list Z)) (f : list Z -> list Z) : list Z :=
+        match name_of tbl flavor with Some fl => f fl | None => raw_pair code subcode end in
+      Some ([69; 88; 67; 95; 82; 69; 83; 79; 85; 82; 67; 69; 32; 47; 32] (* "EXC_RESOURCE / " *) ++ tn ++ SEP ++
+        (if ty =? 1 then withfl NAMES_ExceptionCodeMacResourceCpuFlavor (fun fl =>
+             fl ++ [32; 105; 110; 116; 101; 114; 118; 97; 108; 58; 32] (* " interval: " *) ++ dec (fld code 7 33554431) ++ [115; 32; 67; 80; 85; 32; 108; 105; 109; 105; 116; 58; 32] (* "s CPU limit: " *) ++ dec (Z.land code 7) ++
+             [37; 32; 67; 80; 85; 32; 99; 111; 110; 115; 117; 109; 101; 100; 58; 32] (* "% CPU consumed: " *) ++ dec (Z.land subcode 7) ++ [37] (* "%" *))
+         else if ty =? 2 then withfl NAMES_ExceptionCodeMacResourceWakeupsFlavor (fun fl =>
+             fl ++ [32; 105; 110; 116; 101; 114; 118; 97; 108; 58; 32] (* " interval: " *) ++ dec (fld code 20 1048575) ++ [115; 32; 119; 97; 107; 101; 117; 112; 115; 32; 112; 101; 114; 109; 105; 116; 116; 101; 100; 58; 32] (* "s wakeups permitted: " *) ++ dec (Z.land code 4095) ++
+             [32; 119; 97; 107; 101; 117; 112; 115; 32; 111; 98; 115; 101; 114; 118; 101; 100; 58; 32] (* " wakeups observed: " *) ++ dec (Z.land subcode 4095))
+         else if ty =? 3 then withfl NAMES_ExceptionCodeMacResourceMemoryFlavor (fun fl =>
+             fl ++ [32; 104; 105; 103; 104; 32; 119; 97; 116; 101; 114; 109; 97; 114; 107; 32; 108; 105; 109; 105; 116; 58; 32] (* " high watermark limit: " *) ++ dec (Z.land code 8191) ++ [77; 105; 66] (* "MiB" *))
+         else if ty =? 4 then withfl NAMES_ExceptionCodeMacResourceIOFlavor (fun fl =>
+             fl ++ [32; 105; 110; 116; 101; 114; 118; 97; 108; 58; 32] (* " interval: " *) ++ dec (fld code 15 131071) ++ [115; 32; 73; 47; 79; 32; 108; 105; 109; 105; 116; 58; 32] (* "s I/O limit: " *) ++ dec (Z.land code 32767) ++
+             [37; 32; 73; 47; 79; 32; 111; 98; 115; 101; 114; 118; 101; 100; 58; 32] (* "% I/O observed: " *) ++ dec (Z.land subcode 32767) ++ [37] (* "%" *))
+         else withfl NAMES_ExceptionCodeMacResourceThreadsFlavor (fun fl =>
+             fl ++ [32; 104; 105; 103; 104; 32; 119; 97; 116; 101; 114; 109; 97; 114; 107; 32; 108; 105; 109; 105; 116; 58; 32] (* " high watermark limit: " *) ++ dec (Z.land code 32767))))
+  end.
+
+(* write_exc_guard: "EXC_GUARD / <type>" then, per guard type, the flavor's rendering or " / " and the two raw words *)
+Definition exc_guard_string (ty code subcode : Z) : option (list Z) :=
+  match name_of NAMES_ExceptionCodeMacGuardType ty with
+  | None => None
+  | Some tn =>
+      let flavor := fld code 32 536870911 in
+      let withfl (tbl : list (Z * list Z)) (f : list Z -> list Z) : list Z :=
+        match name_of tbl flavor with Some fl => SEP ++ f fl | None => SEP ++ raw_pair code subcode end in
+      Some ([69; 88; 67; 95; 71; 85; 65; 82; 68; 32; 47; 32] (* "EXC_GUARD / " *) ++ tn ++
+        (if ty =? 0 then []
+         else if ty =? 1 then withfl NAMES_ExceptionCodeMacGuardMachPortFlavor (fun fl =>
+             fl ++ [32; 112; 111; 114; 116; 32; 110; 97; 109; 101; 58; 32] (* " port name: " *) ++ dec (Z.land code 268435455) ++
+             (if subcode =? 0 then [] else [32; 115; 117; 98; 99; 111; 100; 101; 58; 32] (* " subcode: " *) ++ dec subcode))
+         else if ty =? 2 then withfl NAMES_ExceptionCodeMacGuardFDFlavor (fun fl =>
+             fl ++ [32; 102; 105; 108; 101; 32; 100; 101; 115; 99; 114; 105; 112; 116; 111; 114; 58; 32] (* " file descriptor: " *) ++ dec (Z.land code 268435455) ++ [32; 103; 117; 97; 114; 100; 32; 105; 100; 101; 110; 116; 105; 102; 105; 101; 114; 58; 32] (* " guard identifier: " *) ++ dec subcode)
+         else if ty =? 3 then [47; 32; 110; 97; 109; 101; 115; 112; 97; 99; 101; 58; 32] (* "/ namespace: " *) ++ dec (Z.land code 4294967295) ++ [32; 103; 117; 97; 114; 100; 32; 105; 100; 101; 110; 116; 105; 102; 105; 101; 114; 58; 32] (* " guard identifier: " *) ++ dec subcode
+         else if ty =? 4 then withfl NAMES_ExceptionCodeMacGuardVNFlavor (fun fl =>
+             fl ++ [32; 112; 105; 100; 58; 32] (* " pid: " *) ++ dec (Z.land code 268435455) ++ [32; 103; 117; 97; 114; 100; 32; 105; 100; 101; 110; 116; 105; 102; 105; 101; 114; 58; 32] (* " guard identifier: " *) ++ dec subcode)
+         else if ty =? 5 then withfl NAMES_ExceptionCodeMacGuardVirtMemoryFlavor (fun fl =>
+             fl ++ [32; 111; 102; 102; 115; 101; 116; 58; 32] (* " offset: " *) ++ dec subcode)
+         else withfl NAMES_ExceptionCodeMacGuardRejecteSysCallFlavor (fun fl =>
+             fl ++ [32; 115; 121; 115; 99; 97; 108; 108; 58; 32] (* " syscall: " *) ++ dec subcode)))
+  end.
+
 Definition S_SIMULATED := [83; 73; 77; 85; 76; 65; 84; 69; 68].
 Definition reason_string (r : reason) : option (list Z) :=
   match r with
@@ -296,6 +355,8 @@ Definition reason_string (r : reason) : option (list Z) :=
   | (MacBreakpointArm, [v]) => prefixed [69; 88; 67; 95; 66; 82; 69; 65; 75; 80; 79; 73; 78; 84; 32; 47; 32] NAMES_ExceptionCodeMacBreakpointArmType v
   | (MacBreakpointPpc, [v]) => prefixed [69; 88; 67; 95; 66; 82; 69; 65; 75; 80; 79; 73; 78; 84; 32; 47; 32] NAMES_ExceptionCodeMacBreakpointPpcType v
   | (MacBreakpointX86, [v]) => prefixed [69; 88; 67; 95; 66; 82; 69; 65; 75; 80; 79; 73; 78; 84; 32; 47; 32] NAMES_ExceptionCodeMacBreakpointX86Type v
+  | (MacResource, [ty; code; subcode]) => exc_resource_string ty code subcode
+  | (MacGuard, [ty; code; subcode]) => exc_guard_string ty code subcode
   | (LinuxGeneral, [code; flags]) =>
       match name_of NAMES_ExceptionCodeLinux code with
       | Some n =>
